@@ -257,6 +257,14 @@ template <class A> void run_badtext(vf::Ctx& c, int archId) {
 	if (r.k == Res::NonStd) c.fail("a failure reaches the caller as something that is not a std::exception", d);
 	// whether ill-formed text in a std::string must be detected on save is C12's / C01's business; here: whatever happens is an exception or a normal return
 }
+VF_PROPERTY(invalid_options, 1, "operations rejected for their options: CSV load / save (memory and stream) with a separator that is not allowed, XML / JSON pretty printing with extreme padding: the caller gets an exception (or a normal result), nothing leaks (LeakSanitizer at child exit); non-trivial = the option is rejected") {
+	static const char seps[] = { ':', '#', '\0', '"', '\n', 'a', ',', ';' }; SerializationOptions o; o.valuesSeparator = seps[c.src.draw(8)]; const bool stream = c.src.coin(); const bool loading = c.src.coin();
+	std::vector<Row> rows = gen_rows(c.src); std::string doc; { std::string tmp; SerializationOptions ok; SaveObject<CsvArchive>(rows, tmp, ok); doc = tmp; }
+	c.describe(vf::cat("csv separator ", static_cast<int>(o.valuesSeparator), loading ? " load" : " save", " stream=", stream));
+	Res r = call([&] { if (loading) { std::vector<Row> t; if (stream) { std::istringstream is(doc); LoadObject<CsvArchive>(t, is, o); } else LoadObject<CsvArchive>(t, doc, o); } else { if (stream) { std::ostringstream os; SaveObject<CsvArchive>(rows, os, o); } else { std::string out; SaveObject<CsvArchive>(rows, out, o); } } });
+	c.nontrivial = r.k != Res::Ok; if (r.k == Res::NonStd) c.fail("a failure reaches the caller as something that is not a std::exception", vf::cat("separator ", static_cast<int>(o.valuesSeparator)));
+	{ Cls v = gen_cls(c.src, XML); SerializationOptions f; f.formatOptions.enableFormat = true; f.formatOptions.paddingChar = c.src.coin() ? ' ' : '\t'; /* white space only: RapidJSON asserts on anything else (a precondition, not a runtime failure) */ f.formatOptions.paddingCharNum = static_cast<uint16_t>(c.src.coin() ? 1 + c.src.draw(3) : 60000 + c.src.draw(5000)); Res r2 = call([&] { std::string out; if (c.src.coin()) SaveObject<XmlArchive>(v, out, f); else SaveObject<JsonArchive>(v, out, f); }); if (r2.k == Res::NonStd) c.fail("a failure reaches the caller as something that is not a std::exception", "format options"); }
+}
 VF_PROPERTY(midsave_illformed_text_json, 1, "save of an object holding an ill-formed UTF-8 std::string under UtfEncodingErrorPolicy::ThrowError, to memory and to encoded streams: whatever the archive decides, it returns normally or throws a std::exception (no terminate / leak); non-trivial = always") { run_badtext<JsonArchive>(c, JSON); }
 VF_PROPERTY(midsave_illformed_text_xml, 1, "same through XML") { run_badtext<XmlArchive>(c, XML); }
 VF_PROPERTY(midsave_illformed_text_csv, 1, "same through CSV (second row)") { run_badtext<CsvArchive>(c, CSV); }
